@@ -1174,3 +1174,46 @@ def rule_ctor_copies_containers(ctx: Ctx, rep: Report, rule: str, module_prefixe
             rep.ob(rule, f"{q}:{norm(tg)}", not bare, fi.where(st), "stored as a container of the object's own" if not bare else
                    f"`{norm(st)[:80]}` keeps the caller's own `{bare[0].id}`: what the caller does to it afterwards happens to this object")
     rep.floor(rule, floor)
+
+
+def rule_nested_validated(ctx: Ctx, rep: Report, rule: str, module_prefixes: tuple[str, ...], floor: int) -> None:
+    """`assert_valid` of a wire class validates what the object is made of: for
+    every field whose type is (or holds) a class of the package that has an
+    `assert_valid` of its own, the method calls it -- on the field, on each
+    element of it in a loop, or through an `assert...` helper handed the field
+    or the element. A nested object that is never asked is taken on trust: a
+    previous transaction built with check_validity=False and carrying an
+    output of -30 000 sat is summed into a fee (29 of 29 such fields are
+    validated on the unchanged tree)."""
+    has_av = {q.rsplit(".", 1)[-1] for q, ci in ctx.prog.classes.items() if "assert_valid" in ci.methods}
+    n = 0
+    for q, ci in sorted(ctx.prog.classes.items()):
+        if "assert_valid" not in ci.methods or not any(q.startswith(p_) for p_ in module_prefixes):
+            continue
+        av = ci.methods["assert_valid"]
+        for st in ci.node.body:
+            if not (isinstance(st, ast.AnnAssign) and isinstance(st.target, ast.Name)):
+                continue
+            names = {x.id for x in ast.walk(st.annotation) if isinstance(x, ast.Name)} & has_av
+            if not names:
+                continue
+            n += 1
+            f = st.target.id
+            sf = f"self.{f}"
+            called = any(isinstance(c, ast.Call) and isinstance(c.func, ast.Attribute) and c.func.attr == "assert_valid" and sf in str(norm(c.func.value)) for c in own_nodes(av.node))
+            for lp in own_nodes(av.node):
+                if isinstance(lp, (ast.For, ast.comprehension)) and sf in str(norm(lp.iter)):
+                    tv = {x.id for x in ast.walk(lp.target) if isinstance(x, ast.Name)}
+                    scope = lp if isinstance(lp, ast.For) else parent(lp)
+                    for c in ast.walk(scope) if scope is not None else []:
+                        if isinstance(c, ast.Call):
+                            fn = c.func.attr if isinstance(c.func, ast.Attribute) else getattr(c.func, "id", "")
+                            recv = {x.id for x in ast.walk(c.func.value) if isinstance(x, ast.Name)} if isinstance(c.func, ast.Attribute) else set()
+                            argn = {x.id for a_ in c.args for x in ast.walk(a_) if isinstance(x, ast.Name)}
+                            if (fn == "assert_valid" and recv & tv) or ("assert" in fn and argn & tv):
+                                called = True
+            if any(isinstance(c, ast.Call) and "assert" in (c.func.attr if isinstance(c.func, ast.Attribute) else getattr(c.func, "id", "")) and any(sf in str(norm(a_)) for a_ in c.args) for c in own_nodes(av.node)):
+                called = True
+            rep.ob(rule, f"{q}.{f}", called, av.where(), f"`{f}` ({sorted(names)[0]}) is validated" if called else
+                   f"`{ci.name}.assert_valid` never validates its `{f}` ({sorted(names)[0]} has an assert_valid of its own): a nested object built with check_validity=False is taken on trust")
+    rep.floor(rule, floor)
